@@ -23,8 +23,8 @@ fn range(ty: Option<&str>, tag: &str, extra: &str) -> Val {
     })
 }
 
-pub const KINDS: [&str; 22] = [
-    "plural_plain", "plural_other_plain", "range_plain", "string", "var_x", "var_y_number", "var_x_date", "comp_b", "comp_i_var_x", "comp_b_var_y", "comp_b_comp_i_var_w", "comp_b_twice", "range_i32", "range_u8", "range_f32", "plural", "fk_rename_plural", "fk_rename_range", "fk_lit_count", "null", "number", "bool",
+pub const KINDS: [&str; 24] = [
+    "fk_two_hops_plural", "fk_two_hops_range", "plural_plain", "plural_other_plain", "range_plain", "string", "var_x", "var_y_number", "var_x_date", "comp_b", "comp_i_var_x", "comp_b_var_y", "comp_b_comp_i_var_w", "comp_b_twice", "range_i32", "range_u8", "range_f32", "plural", "fk_rename_plural", "fk_rename_range", "fk_lit_count", "null", "number", "bool",
 ];
 
 /// entries for key `k` of kind `kind` (plural adds two entries)
@@ -51,6 +51,9 @@ pub fn kind_entries(kind: &str, tag: &str) -> Vec<(String, Val)> {
         "range_plain" => one(Val::Range(RangeDecl { ty: Some("u8".into()), branches: vec![rb(st(&format!("[{tag}.0]")), vec![CountSpec::UInt(0)]), rb(st(&format!("[{tag}.fb]")), vec![])] })),
         "fk_rename_plural" => one(s(vec![fk_args("pl", vec![("count", FkArg::Str(vec![var("n")]))])])),
         "fk_rename_range" => one(s(vec![fk_args("rg", vec![("count", FkArg::Str(vec![var("count")])), ("q", FkArg::Str(vec![text("Q")]))])])),
+        // two hops: the inner one (helper keys mid_pl / mid_rg) renames the count, the outer passes nothing for it
+        "fk_two_hops_plural" => one(s(vec![text(&format!("[{tag}]")), fk("mid_pl")])),
+        "fk_two_hops_range" => one(s(vec![text(&format!("[{tag}]")), fk("mid_rg")])),
         "fk_lit_count" => one(s(vec![fk_args("rg", vec![("count", FkArg::UInt(0))])])),
         "null" => one(Val::Null),
         "number" => one(Val::UInt(7)),
@@ -64,6 +67,8 @@ pub fn helper_entries(loc: &str) -> Vec<(String, Val)> {
         ("pl_one".into(), s(vec![text(&format!("[{loc}.pl.one]")), var("count")])),
         ("pl_other".into(), s(vec![text(&format!("[{loc}.pl.other]")), var("count"), var("m")])),
         ("rg".into(), range(Some("u16"), &format!("{loc}.rg"), "q")),
+        ("mid_pl".into(), s(vec![fk_args("pl", vec![("count", FkArg::Str(vec![var("n")]))])])),
+        ("mid_rg".into(), s(vec![fk_args("rg", vec![("count", FkArg::Str(vec![var("n")]))])])),
     ]
 }
 
